@@ -7,10 +7,18 @@ MANIFEST = {
     "text": ("NoOverflow / PermitsSane (safety) and AllReturn (liveness: every commit call returns, under weak fairness of every "
              "thread; TLC with the fair specification, no state constraint) are model checked; " + _commit.COMMON_TEXT +
              " C17 judges: after every schedule all committers are released and every commit() must return; a panic "
-             "(queue overflow) or a committer that never returns is a violation."),
+             "(queue overflow) or a committer that never returns is a violation. The background protocol (write stall, "
+             "rotation, flush task, level-compaction task with the real level scores, close) is a second module, "
+             "spec/background/Background.tla: TLC checks FlushScheduled / CompactionScheduled / ImmBounded / NeverStuck and "
+             "the liveness properties CommitReturns / CloseReturns under weak fairness; the model of the pinned behaviour must "
+             "still yield its two deadlock counterexamples, which run as directed schedules on the real engine; the edge cover "
+             "and long random behaviours of the current model are enforced on a real Tree (writers, both background tasks and "
+             "close() held at hook gates), the model state is compared after every schedule and then everything runs freely "
+             "and must come to an end; hook-free stall stress with tiny level targets."),
     "design_ref": "DESIGN.md §4 C17",
-    "note": _commit.COMMON_NOTE + " Write stalls, background flush wake-ups and close() racing commits are not in this model yet.",
-    "technique": "TLA+ model checking incl. liveness (TLC) + interleaving replay on the real commit pipeline",
+    "note": _commit.COMMON_NOTE + " Background model: 2-3 writers, every commit fills a memtable, limits 2-3, 3-4 levels with targets of 1-2 "
+            "memtables, <= 12 commits; flush / compaction failures and the error handler are not modelled.",
+    "technique": "TLA+ model checking incl. liveness (TLC) of the commit pipeline and of the background protocol + interleaving replay of TLC schedules on a real Tree (gate scheduler) + hook-free stall stress",
 }
 
 
